@@ -39,6 +39,14 @@ def run_history(desc):
     classes = [f"mode:{mode}"]
     n_ok = n_rejected = 0
     nontrivial = False
+    retained = []  # (source array, snapshot, where): sources of earlier steps must never change later
+    twins = []  # (second target assigned from the same source, its snapshot)
+
+    def check_retained(where):
+        for src, snp, at in retained:
+            require(build.snapshot(src) == snp, "later-write-changed-earlier-source", f"{where}: the source assigned in step {at} changed")
+        for tw, snp, at in twins:
+            require(build.snapshot(tw) == snp, "later-write-changed-other-target", f"{where}: another array assigned from the same source in step {at} changed")
 
     for si, step in enumerate(desc["steps"]):
         sel, syntax, rhs = step["sel"], step["syntax"], step["rhs"]
@@ -135,6 +143,13 @@ def run_history(desc):
         n_ok += 1
         if kind == "array":
             require(build.snapshot(y) == ysnap, "assignment-modified-source", f"step {si}")
+            retained.append((y, ysnap, si))
+            if not sel and sorted(yd["letters"]) == sorted(tletters):
+                # a second declared array receives the same source; later writes to the first must not reach it
+                tw = fd.FlodymArray(dims=target.dims, values=np.zeros(target.dims.shape, dtype=target.values.dtype))
+                tw[...] = y
+                twins.append((tw, build.snapshot(tw), si))
+                classes.append("twin-target")
         if kind == "ndarray":
             value[...] = 99999.0  # later changes of the assigned ndarray must not reach the target
         require(list(target.dims.letters) == tletters, "assignment-changed-dims", f"step {si}: {target.dims.letters}")
@@ -149,9 +164,16 @@ def run_history(desc):
                     return tm.get(lab)
             return newval({l: lab[orig[l]] for l in rl})
 
+        check_retained(f"after step {si}")
         tm = MArr.from_fn(tletters, build.uitems(U), f)
         d = model.diff(tm, MArr.from_flodym(target), eq)
         require(d is None, f"assign-{kind}-wrong-entries", f"step {si}: {d}; target{tletters} key kinds {[(l, s['kind']) for l, s in sel.items()]} rhs dims {rhs.get('y', {}).get('letters')}")
+    # finally write into the sources: the target must not follow
+    tsnap = build.snapshot(target)
+    for src, snp, at in retained:
+        if src.values.dtype != object:
+            src.values[...] = -31337.0
+    require(build.snapshot(target) == tsnap, "target-follows-later-change-of-source", "writing into earlier sources changed the target")
     if n_ok >= 2:
         nontrivial = True
         classes.append("overlapping-history")
